@@ -681,6 +681,13 @@ impl<'m> MCTPSMBusContext<'m> {
                         }
                     }
 
+                    // The Instance ID of the request is returned in the response
+                    let mut response_header =
+                        MCTPControlMessageHeader::new_from_buf([response_buf[9], response_buf[10]]);
+                    response_header.set_instance_id(header.instance_id());
+                    response_buf[9] = response_header.0[0];
+                    response_buf[len - 1] = pec(&response_buf[0..(len - 1)]);
+
                     return Ok(((msg_type, payload), Some(len)));
                 }
 
